@@ -19,6 +19,21 @@ from .source import Repo, FunctionInfo
 from .spec import Registry, Contract
 
 
+def _has_quant(e):
+    seen = set()
+    stack = [e]
+    while stack:
+        x = stack.pop()
+        if z3.is_quantifier(x):
+            return True
+        k = x.get_id()
+        if k in seen:
+            continue
+        seen.add(k)
+        stack.extend(x.children())
+    return False
+
+
 def exc_name(name):
     return name in BUILTIN_EXC or name.endswith('Error') or name.endswith('Exception')
 
@@ -157,10 +172,11 @@ class VC(Executor, ExprMixin, StmtMixin, CallMixin):
             if n in c.params:
                 ty = parse_type(c.params[n])
                 v = fresh(ty, n)
-                if isinstance(v, VRef) and n == names[0] and fi.cls and ty.cls == fi.cls and c.self_cls is None:
-                    pass
                 vars_[n] = v
                 self.assume_type(v, ty)
+                if isinstance(v, VRef) and n == names[0] and c.self_cls is not None:
+                    v.cls, v.exact, v.nullable = c.self_cls, True, False
+                    self.assume(self.cls_of(v.z) == self.repo.class_ids[c.self_cls])
             else:
                 # defaulted parameter
                 vars_[n] = None
@@ -209,6 +225,8 @@ class VC(Executor, ExprMixin, StmtMixin, CallMixin):
         old_heap = fr.old_heap
         if fi.is_generator():
             fr.out = VOpaque(None, 'emptyout')
+            if c.yields:
+                fr.out = VSeq(z3.IntVal(0), fresh(parse_type(c.yields), 'yield0', 1), 'list')
         try:
             try:
                 self.ex_block(fi.node.body, fr)
@@ -337,6 +355,16 @@ class VC(Executor, ExprMixin, StmtMixin, CallMixin):
         res.obligations = [agg[n] for n in order]
 
     def solve(self, ob: Obligation):
+        # first attempt: quantifier-free hypotheses only (sound: fewer hypotheses), fast for simple goals
+        qf = [p for p in ob.pc if not _has_quant(p)]
+        if len(qf) < len(ob.pc) and not _has_quant(ob.goal):
+            s0 = z3.Solver()
+            s0.set('timeout', min(2000, self.budget_ms))
+            for p in qf:
+                s0.add(p)
+            s0.add(z3.Not(ob.goal))
+            if s0.check() == z3.unsat:
+                return 'discharged', 'z3-5.1.0', None
         s = z3.Solver()
         s.set('timeout', self.budget_ms)
         for p in ob.pc:
